@@ -113,6 +113,43 @@ s+=fmt(setter,name="set_row_height",
         assert(rows@ =~= oc);
 //@before#2 `Ok(())`
         proof { lemma_rows_push(oc, rows@, rows@[oc.len() as int]); }''').replace("ROWS@","rows@")
+s+='''
+//@fn base/src/worksheet.rs Worksheet::delete_row_style
+//@spec
+    requires rows_wf(old(self).rows@)
+    ensures
+        rows_wf(final(self).rows@), r.is_ok(),
+        rows_same_except(old(self).rows@, final(self).rows@, row as int),
+        has_row(final(self).rows@, row as int) == has_row(old(self).rows@, row as int),
+        has_row(old(self).rows@, row as int) ==> RNEW.s == 0 && !RNEW.custom_format
+            && RNEW.height == ROLD.height && RNEW.custom_height == ROLD.custom_height && RNEW.hidden == ROLD.hidden,
+//@rewrite `-> Result<(), String>` => `-> (r: Result<(), String>)`
+//@rewrite `let mut index = None;` => `let mut index: Option<usize> = None;`
+//@rewrite `for (i, r) in self.rows.iter().enumerate() {` => `let mut __i: usize = 0; while __i < self.rows.len() { let i = __i; let r = &self.rows[__i]; __i += 1;`
+//@loop 1
+            invariant_except_break
+                index.is_none(),
+                forall|k: int| 0 <= k < __i ==> (#[trigger] self.rows@[k]).r != row,
+            invariant
+                __i <= self.rows@.len(), self.rows@ == old(self).rows@, rows_wf(self.rows@),
+            ensures
+                self.rows@ == old(self).rows@,
+                index.is_some() ==> index.unwrap() < self.rows@.len() && self.rows@[index.unwrap() as int].r == row,
+                index.is_none() ==> forall|k: int| 0 <= k < self.rows@.len() ==> (#[trigger] self.rows@[k]).r != row,
+            decreases self.rows@.len() - __i
+//@before `if let Some(i) = index {`
+        let ghost oc = self.rows@;
+//@before `Ok(())`
+        proof {
+            if index.is_some() {
+                lemma_rows_update(oc, self.rows@, index.unwrap() as int, row as int);
+            } else {
+                lemma_rows_same(oc, row as int);
+                assert(!has_row(oc, row as int));
+            }
+        }
+//@end
+'''.replace("RNEW", R).replace("ROLD", O)
 s+='''}
 
 } // verus!
